@@ -491,6 +491,19 @@ Section ClientFacts.
     - destruct e; intro X; inv_pair X; exact E.
   Qed.
 
+  (* the variant that also reports "only the clean-up failed" agrees with update_referrers_index *)
+  Lemma update_x_fst s rst subj ch :
+    fst (update_referrers_index_x H parse_mt main user_mts limit skip_gc index_of srv exch s rst subj ch)
+    = update_referrers_index H parse_mt main user_mts limit skip_gc index_of srv exch s rst subj ch.
+  Proof.
+    unfold update_referrers_index_x, update_referrers_index.
+    destruct (negb (valid_digest (d_dg subj))); [reflexivity|].
+    destruct (referrers_from_index H parse_mt main user_mts limit index_of srv exch s (ref_tag (d_dg subj))) as [[[s1 t1] res1] old].
+    repeat match goal with
+           | |- context [match ?x with _ => _ end] => destruct x
+           end; reflexivity.
+  Qed.
+
   Lemma man_delete_allowed s rst d s' rst' t res :
     valid_digest (d_dg d) = true ->
     man_delete H parse_mt subject_of main user_mts limit skip_gc index_of srv exch s rst d = (s', rst', t, res) -> all_allowed t.
@@ -508,11 +521,12 @@ Section ClientFacts.
         destruct ok as [[|]|]; try (intro X; inv_pair X; auto with c13).
         * destruct (delete_req _ _ _ s2 d true) as [[s3 t3] res3] eqn:E3.
           apply delete_req_allowed in E3; auto. intro X; inv_pair X. auto with c13.
-        * destruct (update_referrers_index _ _ _ _ _ _ _ _ _ s2 rst2 sj _) as [[[s3 rst3] t3] res3] eqn:E3.
-          apply update_allowed in E3.
-          destruct res3; try (intro X; inv_pair X; auto with c13).
+        * pose proof (update_x_fst s2 rst2 sj (RRemove d)) as Ex.
+          destruct (update_referrers_index_x _ _ _ _ _ _ _ _ _ s2 rst2 sj _) as [[[[s3 rst3] t3] res3] cl].
+          cbn [fst] in Ex. symmetry in Ex. apply update_allowed in Ex.
           destruct (delete_req _ _ _ s3 d true) as [[s4 t4] res4] eqn:E4.
-          apply delete_req_allowed in E4; auto. intro X; inv_pair X. auto 8 with c13.
+          apply delete_req_allowed in E4; auto.
+          destruct res3; try destruct cl; intro X; inv_pair X; auto 8 with c13.
       + destruct (delete_req _ _ _ s1 d true) as [[s2 t2] res2] eqn:E2.
         apply delete_req_allowed in E2; auto. intro X; inv_pair X. auto with c13.
     - destruct (delete_req _ _ _ s d true) as [[s1 t1] res1] eqn:E1.
